@@ -113,11 +113,31 @@ Definition value_test (s : sstate) (patience : Z) : float :=
   else if src_vt_recent ii size patience then dd
   else PrimFloat.zero.
 
+(* reference semantics written WITHOUT the translated kernels (executable mirrors of C02_value_test_spec and
+   C02_done_decision: the driver applies them to what the implementation answered, so that a source change that the
+   regenerated model follows is still a concrete failing input) *)
+Fixpoint first_impr (h : list (float * float)) : option (nat * (float * float)) :=
+  match h with
+  | [] => None
+  | (df, dx) :: rest =>
+    if PrimFloat.ltb PrimFloat.zero df then Some (O, (df, dx))
+    else match first_impr rest with Some (k, e) => Some (S k, e) | None => None end
+  end.
+Definition value_test_ref (s : sstate) (patience : Z) : float :=
+  match first_impr (shist s) with
+  | None => if Z.of_nat (length (shist s)) >=? patience then PrimFloat.zero else f_dmax
+  | Some (k, (df, dx)) => if Z.of_nat k <? patience then fmax df dx else PrimFloat.zero
+  end.
+(* (returned bool, status afterwards) *)
+Definition done_ref (s : sstate) (iter_ok converged : bool) : bool * Z :=
+  if converged || negb (iter_ok && valid s) then (true, if converged && valid s then ST_CONVERGED else ST_FAILED)
+  else (false, sstatus s).
+
 (* solver_t::done(state, iter_ok, converged): returns the new state and the returned bool *)
 Definition done_step (s : sstate) (fc gc : Z) (iter_ok converged : bool) : sstate * bool :=
   let s1 := set_calls s fc gc in
   let step_ok := src_done_step_ok iter_ok (valid s1) in
-  if src_done_stop converged step_ok then (set_status s1 (src_done_status converged), src_done_ret_stop)
+  if src_done_stop converged step_ok then (set_status s1 (src_done_status converged (valid s1)), src_done_ret_stop)
   else (s1, src_done_ret_go).
 
 (* ------------------------------------------------------------------------------------------------------------- *)
